@@ -1,4 +1,5 @@
 """C13 - Concurrent or interleaved chunks with per-call parameters do not interfere."""
+import os
 import sys
 import copy
 import time
@@ -20,16 +21,16 @@ RULE = ('Evaluation = one interleaving / one thread schedule of 2-4 chunks, each
         'at the granularity [construct+slices, groups, layers+messages] (1680, all in thorough, sampled in quick). '
         '(b) Threads calling run(data_k, prms=prms_k) under a controlled scheduler: sys.monitoring LINE events '
         'restricted to ampycloud code objects hand control to a seeded scheduler that lets exactly one thread '
-        'proceed to its next ampycloud source line (PCT-style priorities with d random change points, and a '
-        'random-walk mode switching with probability p at every line), so a schedule is a replayable sequence of '
+        'proceed to its next ampycloud source line - in half of the schedules also to its next call / return from a C function, so that the gap between two library calls on one line can be pre-empted - (PCT-style priorities with d random change points, a '
+        'random-walk mode switching with probability p at every yield point, and a mode that demotes the running thread right after a library call returned to ampycloud code, and atomicity probes that park one thread at a static yield site - a source line or the return of a given library call into a given ampycloud line, each distinct site weighted equally - until all other threads have finished), so a schedule is a replayable sequence of '
         'thread choices. Evidence lists line events, context switches, distinct schedule hashes and the function '
         'pairs observed overlapping. Non-trivial = the chunks differ in data or parameters; distinct = '
         'interleaving index resp. schedule hash.')
 ASSUMPTIONS = ['no pre-emption inside C extensions (numpy / scikit-learn calls are atomic steps of a schedule)',
                'isolated references are computed in the same process before the interleavings (cross-process equality is C09)']
-REQUIRED = ['pair_interleavings_252', 'pair_same_data_different_prms', 'triple_interleavings', 'threads_pct', 'threads_random_walk',
+REQUIRED = ['pair_interleavings_252', 'pair_same_data_different_prms', 'pair_shared_list_objects', 'triple_interleavings', 'threads_pct', 'threads_random_walk', 'threads_call_level', 'threads_call_level',
             'two_threads_in_same_stage', 'two_threads_in_ncomp_from_gmm', 'poisoned_global', 'distinct_schedules_100']
-SIZES = {'quick': dict(pairs=4, triples=100, sched=256), 'thorough': dict(pairs=40, triples=1680 * 5, sched=6000)}
+SIZES = {'quick': dict(pairs=4, triples=100, sched=320), 'thorough': dict(pairs=40, triples=1680 * 5, sched=6000)}
 EXHAUSTIVE = {'quick': 'all C(10,5)=252 stage interleavings of two chunks, for each of the pairs (interleaving part only)',
               'thorough': 'all 252 stage interleavings of two chunks per pair and all 1680 coarse interleavings of three chunks per triple'}
 TIMEOUT = {'quick': 1500, 'thorough': 7000}
@@ -141,7 +142,10 @@ class Pipe:
     def step(self, name):
         from ampycloud.data import CeiloChunk
         if name == 'construct':
-            self.chunk = CeiloChunk(self.df, prms=copy.deepcopy(self.case['call']))
+            call = copy.deepcopy(self.case['call'])
+            if getattr(self, 'shared_lists', None) is not None:
+                call.update(self.shared_lists)            # same list objects in every chunk's per-call dict
+            self.chunk = CeiloChunk(self.df, prms=call)
         elif name == 'messages':
             self.msgs = [self.chunk.metar_msg(w) for w in obs.WHICH]
         else:
@@ -167,6 +171,16 @@ def check_interleavings(desc):
     key = desc['pair'] if desc['fam'] == 'pair' else 100 + desc['set']
     same = desc['fam'] == 'pair' and key % 2 == 1
     cases = make_cases(desc['s'], key, n_ch, same_data=same)
+    shared = desc['fam'] == 'pair' and key % 4 == 2
+    if shared:
+        # the usual {**common, ...} pattern: both per-call dicts hold the SAME list objects; the first chunk is
+        # made of excluded instruments only (exclusion fall-back for every set), the second of both kinds
+        rng = scenes.rng_for(desc['s'], NUM, key, 9)
+        sc_a = scenes.close_chain_scene(rng, nl=3, nce=2)
+        sc_b = scenes.close_chain_scene(rng, nl=4, nce=3)
+        cases[0]['scene'], cases[1]['scene'] = sc_a, sc_b
+        for c in cases:
+            c['call'].update({'MSA': None, 'BASE_LVL_LOOKBACK_PERC': 100.0})
     evals = 0
     nontriv = 0
     with warnings.catch_warnings():
@@ -174,6 +188,14 @@ def check_interleavings(desc):
         gtag = install_global(key, cases)
         tags.add(gtag)
         try:
+            def fresh_common():
+                return {'EXCLUDE_FOR_BASE_HEIGHT_CALC': ['a', 'b'], 'MIN_SEP_VALS': [250.0, 1000.0], 'MIN_SEP_LIMS': [10000.0]}
+            if shared and gtag != 'poisoned_global':
+                for c in cases:
+                    c['call'].update(copy.deepcopy(fresh_common()))
+            elif shared:
+                for c in cases:
+                    c['call'].update(copy.deepcopy(fresh_common()))
             ref = [isolated(c) for c in cases]
             if desc['fam'] == 'pair':
                 seqs = [STAGES, STAGES]
@@ -191,6 +213,10 @@ def check_interleavings(desc):
                 orders = [list(o) for o in allo[desc['lo']:desc['lo'] + desc['n']]]
             for order in orders:
                 pipes = [Pipe(c) for c in cases]
+                if shared:
+                    common = fresh_common()
+                    for p_ in pipes:
+                        p_.shared_lists = common
                 try:
                     for who in order:
                         p = pipes[who]
@@ -219,6 +245,8 @@ def check_interleavings(desc):
         tags.add('pair_interleavings_252')
         if same:
             tags.add('pair_same_data_different_prms')
+        if shared:
+            tags.add('pair_shared_list_objects')
     else:
         tags.add('triple_interleavings')
     return {'evals': evals, 'nontrivial_n': nontriv, 'nontrivial': [], 'tags': sorted(tags), 'viol': viol[:5],
@@ -254,10 +282,14 @@ class Sched:
         self.where = {}
         self.overlap = set()
         self.dead = False
+        self.call_level = False
+        self.park_k, self.park_site, self.park_done = None, None, False
 
     def register(self, k):
         with self.cv:
             self.prio[k] = self.rng.random() + 1.0
+            if getattr(self, 'park_first', None) == k:
+                self.prio[k] = 10.0          # the probed thread runs first, up to its parking site
             self.registered += 1
             self.cv.notify_all()
             while self.registered < self.n:
@@ -276,16 +308,29 @@ class Sched:
         self.current = new
         self.cv.notify_all()
 
-    def yield_point(self, k, fn):
+    def yield_point(self, k, fn, site=None):
         with self.cv:
             self.steps += 1
             self.where[k] = fn
+            if site is not None:
+                if self.mode != 'park':
+                    SITES[site] = SITES.get(site, 0) + 1
+                elif k == self.park_k and site == self.park_site and not self.park_done:
+                    # atomicity probe: this thread stops here until every other thread has finished its whole run
+                    self.park_done = True
+                    self.prio[k] = -1.0
             for kk, v in self.where.items():
                 if kk != k and kk not in self.finished:
                     self.overlap.add(tuple(sorted((fn, v))))
             if self.mode == 'pct':
                 if self.steps in self.change:
                     self.prio[k] = self.rng.random()          # below every initial priority
+            elif self.mode == 'ret':
+                # pre-empt right after a library call returned to ampycloud code, and let the others run on
+                if fn.startswith('return:') and self.rng.random() < self.p_switch:
+                    self.prio[k] = min(self.prio.values()) - 1.0
+            elif self.mode == 'park':
+                pass                              # priorities only change at the parking site
             elif self.rng.random() < self.p_switch:
                 for kk in self.prio:
                     self.prio[kk] = self.rng.random()
@@ -304,17 +349,52 @@ class Sched:
             self._pick()
 
 
+SITES = {}        # static yield sites discovered so far in this process: id -> hits
+
+
 def _line_cb(code, line):
     k = getattr(_tl, 'k', None)
     s = _SCHED[0]
     if k is not None and s is not None:
-        s.yield_point(k, code.co_name)
+        s.yield_point(k, code.co_name, 'line:%s:%d' % (code.co_name, line))
+
+
+def _call_cb(code, off, callable_, arg0):
+    # yield points before every call made from ampycloud code and after every return from a C function:
+    # library calls (numpy / scikit-learn / pandas) are atomic steps, the gaps between them are not
+    k = getattr(_tl, 'k', None)
+    s = _SCHED[0]
+    if k is not None and s is not None and s.call_level:
+        # also yield when the (Python) callee returns to ampycloud: e.g. between est.fit(X) and est.labels_
+        fn = getattr(callable_, '__func__', callable_)
+        co = getattr(fn, '__code__', None)
+        if co is not None and co not in _RET_CODES and '/ampycloud/' not in co.co_filename:
+            _RET_CODES.add(co)
+            try:
+                sys.monitoring.set_local_events(TOOL, co, sys.monitoring.events.PY_RETURN)
+            except Exception:      # noqa - best effort
+                pass
+        s.yield_point(k, code.co_name, 'call:%s:%d' % (code.co_name, off))
+
+
+_RET_CODES = set()
+
+
+def _ret_cb(code, off, retval):
+    k = getattr(_tl, 'k', None)
+    s = _SCHED[0]
+    if k is not None and s is not None and s.call_level:
+        fr = sys._getframe(1).f_back
+        caller = fr.f_code if fr is not None else None
+        if caller is not None and '/ampycloud/' in caller.co_filename:      # returning INTO ampycloud code
+            s.yield_point(k, 'return:' + code.co_name, 'return:%s@%s:%d' % (code.co_name, caller.co_name, fr.f_lineno))
 
 
 def _start_cb(code, off):
     fn = code.co_filename
     if '/ampycloud/' in fn and not fn.endswith('logger.py'):
-        sys.monitoring.set_local_events(TOOL, code, sys.monitoring.events.LINE)
+        ev = sys.monitoring.events
+        sys.monitoring.set_local_events(TOOL, code, ev.LINE | ev.CALL)
     return sys.monitoring.DISABLE
 
 
@@ -325,6 +405,9 @@ def monitoring_on():
     mon.use_tool_id(TOOL, 'verif-c13')
     mon.register_callback(TOOL, mon.events.PY_START, _start_cb)
     mon.register_callback(TOOL, mon.events.LINE, _line_cb)
+    mon.register_callback(TOOL, mon.events.CALL, _call_cb)
+    mon.register_callback(TOOL, mon.events.C_RETURN, _call_cb)
+    mon.register_callback(TOOL, mon.events.PY_RETURN, _ret_cb)
     mon.set_events(TOOL, mon.events.PY_START)
     _MON_ON[0] = True
 
@@ -336,6 +419,7 @@ def check_threads(desc):
     hashes = []
     counters = {'line_events': 0, 'context_switches': 0, 'schedules': 0}
     overlap_all = set()
+    parked_sites = set()
     warnings.simplefilter('ignore')          # process-wide: catch_warnings is not thread-safe
     key = desc['i']
     nthreads = 2 + key % 3
@@ -355,8 +439,29 @@ def check_threads(desc):
         for j in range(desc['n']):
             sidx = desc['lo'] + j
             mode = 'pct' if sidx % 2 == 0 else 'walk'
+            if sidx % 4 == 3:
+                mode = 'ret'
+            park = j >= 6 and len(SITES) > 0          # the first schedules of a worker discover the static sites
+            if park:
+                mode = 'park'
             sc = Sched(desc['s'] * 1000003 + sidx, nthreads, mode, depth=2 + sidx % 4,
-                       est_steps=2500 * nthreads, p_switch=[0.003, 0.02, 0.1][sidx % 3])
+                       est_steps=2500 * nthreads, p_switch=[0.003, 0.02, 0.1][sidx % 3] if mode != 'ret' else [0.01, 0.03, 0.08][sidx % 3])
+            sc.call_level = sidx % 4 >= 2 or park  # half of the schedules also yield around every call
+            if park:
+                names = sorted(SITES)
+                rets = [x for x in names if x.startswith('return:')]
+                pool = rets if (rets and sidx % 3 != 0) else names
+                # systematic sweep: consecutive probes of consecutive workers walk through the sorted site list
+                sc.park_site = pool[((desc['i'] - 2000) * 10 + (j - 6)) * 7919 % len(pool)] if pool is rets \
+                    else pool[sc.rng.randrange(len(pool))]
+                if os.environ.get('VERIF_C13_SITE') in SITES:         # debugging aid: probe one given site
+                    sc.park_site = os.environ['VERIF_C13_SITE']
+                sc.park_k = sidx % nthreads
+                parked_sites.add(sc.park_site)
+            if sc.call_level:
+                sc.change = set(sc.rng.sample(range(1, 9000 * nthreads), 2 + sidx % 6)) if mode == 'pct' else set()
+                tags.add('threads_call_level')
+            sc.park_first = sc.park_k if park else None
             _SCHED[0] = sc
             out = [None] * nthreads
             errs = [None] * nthreads
@@ -391,7 +496,10 @@ def check_threads(desc):
             counters['context_switches'] += sc.switches
             hashes.append(sc.trace.hexdigest()[:16])
             overlap_all |= sc.overlap
-            tags.add('threads_pct' if mode == 'pct' else 'threads_random_walk')
+            tags.add({'pct': 'threads_pct', 'walk': 'threads_random_walk', 'ret': 'threads_preempt_after_library_call',
+                      'park': 'threads_park_at_static_site'}[mode])
+            if mode == 'park' and sc.park_done:
+                counters['park_probes_reached'] = counters.get('park_probes_reached', 0) + 1
             for k in range(nthreads):
                 if errs[k] is not None:
                     oracles.V(viol, 'C13', 'run() raises under a thread schedule', thread=k, exc=type(errs[k]).__name__,
@@ -415,6 +523,8 @@ def check_threads(desc):
     if ('ncomp_from_gmm', 'ncomp_from_gmm') in overlap_all:
         tags.add('two_threads_in_ncomp_from_gmm')
     counters['distinct_overlapping_function_pairs'] = len(overlap_all)
+    counters['static_yield_sites_discovered'] = len(SITES)
+    counters['static_return_sites_discovered'] = len([x for x in SITES if x.startswith('return:')])
     return {'evals': evals, 'nontrivial': hashes, 'tags': sorted(tags), 'viol': viol[:5], 'counters': counters,
             'sample': sample if desc['i'] % 5 == 0 else None}
 
